@@ -6,6 +6,7 @@ package main
 
 import (
 	"fmt"
+	"go/ast"
 	"os"
 	"go/types"
 	"math/big"
@@ -350,6 +351,9 @@ func (e *Engine) verifyVariant(fn *ssa.Function, c *Contract, plan aliasPlan, sc
 	seenInv := map[string]bool{}
 	for i, p := range fn.Params {
 		for _, inv := range e.invariantsOfValue(st, args[i], p.Type(), p.Name()) {
+			if c.Weak[p.Name()] && inv.top {
+				continue
+			}
 			if !seenInv[inv.t.Key()] {
 				seenInv[inv.t.Key()] = true
 				st.assume(inv.t)
@@ -450,7 +454,34 @@ func (e *Engine) checkReturn(ex Exit, fr *Frame, fn *ssa.Function, c *Contract, 
 			st.assume(h)
 		}
 	}
+	for i, en := range c.Proves {
+		g := env.boolTerm(en.Expr)
+		e.addObligation(st, fr, "proves", strconv.Itoa(i), g, en.Text)
+		st.assume(g)
+	}
 	for i, en := range c.Ensures {
+		// implication introduction: `A ==> B` is proved by assuming A (which may enable lemma instances
+		// whose hypotheses are A) and proving B.
+		if ce, ok := en.Expr.(*ast.CallExpr); ok {
+			if id, ok := ce.Fun.(*ast.Ident); ok && id.Name == "implies" && len(c.Using) > 0 {
+				st2 := st.fork()
+				env2 := *env
+				env2.st = st2
+				a := env2.boolTerm(ce.Args[0])
+				if a.IsConst() && a.Val.Sign() == 0 {
+					continue
+				}
+				st2.assume(a)
+				for _, u := range c.Using {
+					for _, h := range e.instantiateLemma(&env2, u) {
+						st2.assume(h)
+					}
+				}
+				g := env2.boolTerm(ce.Args[1])
+				e.addObligation(st2, fr, "ensures", strconv.Itoa(i), g, en.Text)
+				continue
+			}
+		}
 		g := env.boolTerm(en.Expr)
 		e.addObligation(st, fr, "ensures", strconv.Itoa(i), g, en.Text)
 	}
@@ -471,8 +502,17 @@ func (e *Engine) checkReturn(ex Exit, fr *Frame, fn *ssa.Function, c *Contract, 
 	}
 	// invariants of results
 	rs := fn.Signature.Results()
+	weakRoot := e.weakRoots(fn, c, args)
 	for i, r := range ex.results {
+		isWeak := false
+		if p, ok := r.(*PtrVal); ok && !p.null && !p.reg.dyn {
+			rr, pp, _ := e.resolveWindow(p.reg, p.path)
+			isWeak = weakRoot[pathKey(rr.id, pp)]
+		}
 		for _, inv := range e.invariantsOfValue(st, r, rs.At(i).Type(), fmt.Sprintf("result%d", i)) {
+			if isWeak && inv.top {
+				continue
+			}
 			e.addObligation(st, fr, "inv", inv.label, inv.t, "type invariant of "+inv.label)
 		}
 	}
@@ -563,9 +603,15 @@ func (e *Engine) checkFrame(st *State, fr *Frame, fn *ssa.Function, c *Contract,
 		}
 	}
 	// invariants of modified objects
+	weakRoot := e.weakRoots(fn, c, args)
 	for _, cr := range dedupeObjects(e, modCells) {
+		if weakRoot[pathKey(cr.reg.id, cr.path)] {
+			continue
+		}
 		for _, inv := range e.invariantsAt(st, cr.reg, cr.path, cr.typ, cr.reg.name+pathName(cr.reg.typ, cr.path)) {
-			e.addObligation(st, fr, "inv", inv.label, inv.t, "type invariant restored for "+inv.label)
+			if inv.top {
+				e.addObligation(st, fr, "inv", inv.label, inv.t, "type invariant restored for "+inv.label)
+			}
 		}
 	}
 }
@@ -716,4 +762,17 @@ func (e *Engine) initGlobals(order []*ssa.Package) error {
 	}
 	e.gmem = st.mem
 	return nil
+}
+
+func (e *Engine) weakRoots(fn *ssa.Function, c *Contract, args []Value) map[string]bool {
+	out := map[string]bool{}
+	for i, a := range args {
+		if i < len(fn.Params) && c.Weak[fn.Params[i].Name()] {
+			if p, ok := a.(*PtrVal); ok && !p.null && !p.reg.dyn {
+				r, pp, _ := e.resolveWindow(p.reg, p.path)
+				out[pathKey(r.id, pp)] = true
+			}
+		}
+	}
+	return out
 }
